@@ -4,7 +4,10 @@
 
 //! Implementación de funciones de limpieza del modelo
 
+#[cfg(not(kani))]
 use std::collections::HashSet;
+#[cfg(kani)]
+use crate::kani_models::HashSet;
 
 use super::{Model, Warning, WarningLevel};
 
